@@ -331,6 +331,28 @@ def _type_check_local_reference(expression, ir, errors):
         )
 
 
+
+def _has_true_is_integer_attribute(type_definition):
+    """Returns true if type_definition carries `[is_integer: true]`.
+
+    Types are checked before attribute lists are verified, so the list may
+    still contain a duplicate (which ir_util.get_attribute would assert on);
+    attribute_checker reports it later, and until then the first one counts.
+    """
+    for attribute in type_definition.attribute:
+        if (
+            attribute.name.text == attributes.IS_INTEGER
+            and not attribute.is_default
+            and not ir_data_utils.reader(attribute).back_end.text
+        ):
+            value = attribute.value
+            return bool(
+                value.has_field("expression")
+                and value.expression.has_field("boolean_constant")
+                and value.expression.boolean_constant.value
+            )
+    return False
+
 def unbounded_expression_type_for_physical_type(type_definition):
     """Gets the ExpressionType for a field of the given TypeDefinition.
 
@@ -345,7 +367,7 @@ def unbounded_expression_type_for_physical_type(type_definition):
       The returned ExpressionType will not have any bounds set.
     """
     # TODO(bolms): Add a `[value_type]` attribute for `external`s.
-    if ir_util.get_boolean_attribute(type_definition.attribute, attributes.IS_INTEGER):
+    if _has_true_is_integer_attribute(type_definition):
         return ir_data.ExpressionType(integer=ir_data.IntegerType())
     elif (
         tuple(type_definition.name.canonical_name.object_path) == ("Flag",)
